@@ -59,17 +59,20 @@ func replay(c *lib.Ctx, raw json.RawMessage) string {
 
 func evidence(m *lib.Merged) map[string]any {
 	ev := map[string]any{
-		"states":                        m.Distinct["states"],
-		"transitions":                   m.Counters["transitions"],
-		"traces_validated_against_impl": m.Counters["transitions"],
-		"evaluations":                   m.Counters["transitions"],
-		"api_reads_checked":             m.Counters["reads_checked"],
-		"distinct_nontrivial":           m.Distinct["nontrivial"],
-		"distinct_outcomes":             m.Distinct["outcomes"],
-		"max_depth":                     m.Maxes["max_depth"],
-		"reads_with_deletable_hours":    m.Counters["reads_with_maybe_hours"],
-		"reads_in_days_mode":            m.Counters["reads_days_mode"],
-		"reads_before_pending_flush":    m.Counters["reads_pending_rollover"],
+		"states":                           m.Distinct["states"],
+		"transitions":                      m.Counters["transitions"],
+		"traces_validated_against_impl":    m.Counters["transitions"],
+		"evaluations":                      m.Counters["transitions"],
+		"api_reads_checked":                m.Counters["reads_checked"],
+		"distinct_nontrivial":              m.Distinct["nontrivial"],
+		"distinct_outcomes":                m.Distinct["outcomes"],
+		"max_depth":                        m.Maxes["max_depth"],
+		"bfs_shards_completed_depth_bound": m.Counters["bfs_shards_completed_all_depths"],
+		"reads_with_deletable_hours":       m.Counters["reads_with_maybe_hours"],
+		"reads_in_days_mode":               m.Counters["reads_days_mode"],
+		"reads_before_pending_flush":       m.Counters["reads_pending_rollover"],
+		"reads_before_pending_flush_after_restart_in_counted_hour": m.Counters["reads_pending_rollover_after_restart_in_hour"],
+		"reads_with_counts_in_oldest_window_hour":                  m.Counters["reads_oldest_window_hour_counted"],
 		"rule": "BFS over histories of update/advance-hours/flush/restart/set-limit/clear/read on the real stats.StatsCtx (bbolt file on tmpfs, UnitID = virtual hour, real HTTP handlers through httptest); a state is (dump of the current unit + every bbolt bucket + limit through a hook, reference map hour->counters, virtual hour); after EVERY transition GET /control/stats is decoded and compared with the reference: five totals, hourly series per hour and their sums, daily series <= totals, nothing outside (current-limit, current]. non-trivial = transition executed while at least one query is counted in the reference",
 	}
 	// ---- PHASE 2 HOOK: add the schedule counters (schedules, preemption
